@@ -130,6 +130,15 @@ ADDENDA2 = {
     'C19': ' Option names match fields; named fields are not swapped between same-typed parameters; every path of a first-phase batch sorts (or passes a strict in-order test).',
 }
 
+ADDENDA3 = {
+    'C01': ' The DFS frame field that indexes transitions can hold 256; the convenience collectors decode keys losslessly (shared R03.7).',
+    'C03': ' The string collectors decode keys losslessly (from_utf8 with the error propagated).',
+    'C11': ' A Result parked in a variable that the next loop iteration assigns again unseen counts as dropped.',
+    'C16': ' An answer given without running the descent is judged: "no keys", or "beyond the value of the last key" when that value comes from a right-most walk down to the node without transitions; the selecting predicate has no path that accepts a transition unchecked; the index form position(out > value) - 1 of the step.',
+    'C18': ' No path of a combinator accept puts a component back into its start state.',
+    'C19': ' A test over adjacent rows that decides whether a batch needs merging compares keys, not whole rows.',
+}
+
 NOT_APPLICABLE = {
     'C17': 'Acceptance is a property of a DFA constructed at run time from the query; no clause has a structural counterpart that a sound static rule within reach could decide (DESIGN.md §6).',
 }
@@ -144,7 +153,7 @@ def main():
         if pid not in CLAIMS:
             continue
         cat, text, note, tech, ref = CLAIMS[pid]
-        text = text + ADDENDA.get(pid, '') + ADDENDA2.get(pid, '')
+        text = text + ADDENDA.get(pid, '') + ADDENDA2.get(pid, '') + ADDENDA3.get(pid, '')
         checks.append({
             'property_id': pid,
             'quick_cmd': './check %s --tier quick' % pid,
